@@ -109,7 +109,7 @@ Connect(c, k, clean, will) == ConnectF(c, k, clean, will, "plain")
    kind: "level" 1, "name" 1, "idlong" 2, "idbad" 2, "idempty0" 2, "auth" 4, and without
    CONNACK: "reserved", "willflags", "notconnect", "truncated", "garbage"              *)
 RefuseCode(kind) == CASE kind \in {"level", "name"} -> 1
-                      [] kind \in {"idlong", "idbad", "idempty0"} -> 2
+                      [] kind \in {"idlong", "idbad", "iddel", "idhigh", "idctl1f", "idempty0"} -> 2   \* identifiers: at most 32 bytes 0x20..0x7e
                       [] kind \in {"auth", "auth-k1-clean", "auth-k1-keep"} -> 4   \* rejected credentials, also with a known client id
                       [] OTHER -> 0
 Refuse(c, kind, follow) ==
